@@ -13,6 +13,15 @@ CHECKS = {
  "C02": dict(cat="model_checking", tech="exhaustive enumeration of the codec program space x values, byte-for-byte comparison with an independent bit-level ODX interpreter, on both bitstruct backends (second process with bitstruct.c unimportable)",
    text="For every program and every assignment the reference accepts: identical PDU bytes, identical decode of the reference-built PDU, overlap warning iff the reference sees a bit claimed twice (dedicated overlap programs included); the complete exploration is repeated with the pure-Python bit-packing backend.",
    note=CODEC_NOTE, ref="4, 5/C02"),
+ "C03": dict(cat="model_checking", tech="exhaustive enumeration of reference-built canonical PDUs of the codec program space; decode then re-encode on the real implementation, directly and through DiagLayer.decode / DiagService.encode_request",
+   text="Every distinct PDU that the reference interpreter builds from every value assignment of every program (all internal values of small types) is decoded by the real decoder and the decoded dictionary is encoded again: the bytes must be identical.",
+   note=CODEC_NOTE + " Programs with NRC-CONST parameters are excluded (their value cannot be set by design). The compu-level inverse law is checked by C07.", ref="4, 5/C03"),
+ "C05": dict(cat="model_checking", tech="exhaustive enumeration of byte strings (all prefixes, single-byte substitutions, insertions/deletions of valid PDUs; all strings up to length 3/4 over the program's byte alphabet) against every program and every somersault layer",
+   text="For every program of the codec space and every layer of the shipped somersault database, every byte string of the bounded space is decoded through Request/Response.decode, DiagLayer.decode, decode_response and DiagService.decode_message: the call returns or raises DecodeError, nothing else escapes, it terminates, and a PDU on which the reference decoder runs out of bytes is rejected.",
+   note=CODEC_NOTE + " Random strings of the property's quantifier are replaced by the exhaustive bounded sets; strings longer than 4 bytes are reached only as mutations of valid PDUs.", ref="4, 5/C05"),
+ "C08": dict(cat="model_checking", tech="exhaustive enumeration of programs x value assignments x all subsets of supplied parameters; static metadata compared with actual encodings",
+   text="For every program: the reported static bit length equals the size of every successful encoding, the reported constant prefix is a prefix of every PDU, required parameters are exactly those whose omission fails (all subsets of up to 4 supplied parameters), free parameters are exactly the settable ones.",
+   note=CODEC_NOTE, ref="4, 5/C08"),
  "C04": dict(cat="model_checking", tech="exhaustive enumeration of valid and invalid value assignments (all of [-2^n, 2^(n+1)] for small n, boundary sets, wrong types, every single-fault neighbour of valid assignments of composed programs) on the real encoder, both backends",
    text="For every assignment the encoder either raises an odxtools OdxError subclass or returns a PDU that decodes back to the requested values; any foreign exception type or silent wrap/truncate/pad/drop is a violation.",
    note=CODEC_NOTE + " Out-of-mask values of BIT-MASK types, values for RESERVED parameters, extra members of environment-data dictionaries are outside the property's envelope.", ref="4, 5/C04"),
